@@ -193,7 +193,8 @@ impl CertificateRevocationListParams {
 		issuer: &Certificate,
 		issuer_key: &KeyPair,
 	) -> Result<CertificateRevocationList, Error> {
-		if self.next_update.le(&self.this_update) {
+		// Only whole seconds are encoded, so compare what will actually be written.
+		if self.next_update.unix_timestamp() <= self.this_update.unix_timestamp() {
 			return Err(Error::InvalidCrlNextUpdate);
 		}
 
